@@ -85,6 +85,16 @@ theorem final_order_spec (s : Source) (f : Final) (hnd : s.prelim.Nodup) (h : fi
       (∀ x ∈ derived, x ≠ notdef ∧ ∃ b k, b ∈ s.kept ∧ x = suffixed b k) :=
   (finalOrder_shape s f hnd h).order_eq
 
+/-- `derived_names_fresh`: the glyphs made by splitting have pairwise distinct names, none of which is the name of a
+    glyph of the exported order (it may be the name of a *non-exported* source glyph: see
+    `all_glyphs_compiled_counterexample_derived`). -/
+theorem derived_names_fresh (s : Source) (f : Final) (hnd : s.prelim.Nodup) (h : finalOrder s = some f) :
+    ∃ derived : List String, f.order = notdef :: (s.kept.erase notdef ++ derived) ∧
+      derived.Nodup ∧ ∀ x ∈ derived, x ∉ s.kept := by
+  obtain ⟨derived, hord, hnd2, _⟩ := final_order_spec s f hnd h
+  rw [List.nodup_append] at hnd2
+  exact ⟨derived, hord, hnd2.2.1, fun x hx hk => hnd2.2.2 x hk x hx rfl⟩
+
 /-- `.notdef` is glyph 0, whatever the source says about it (absent, misplaced, first, non-export). -/
 theorem notdef_first (s : Source) (f : Final) (hnd : s.prelim.Nodup) (h : finalOrder s = some f) :
     f.order[0]? = some notdef := by
